@@ -116,6 +116,48 @@ let () =
     | [] -> () in
   go (Array.to_list Sys.argv)
 
+(* -incfile PATH: one line per history whose exploration went over budget *)
+let incfile = ref ""
+let () =
+  let rec go = function
+    | "-incfile" :: f :: r -> incfile := f; go r
+    | _ :: r -> go r
+    | [] -> () in
+  go (Array.to_list Sys.argv)
+
+let note_inconclusive (line : string) =
+  prerr_endline "inconclusive: exploration budget";
+  if !incfile <> "" then begin
+    let oc = open_out_gen [Open_append; Open_creat] 0o644 !incfile in
+    output_string oc (line ^ "\n"); close_out oc
+  end
+
+(* When the set of allowed outcomes could not be computed, the observation is still checked against what
+   the theorems say about every run: nothing hangs or stays blocked (histories are closed: every gate is
+   released and every promise is resolved), mu free, and every pipelined call that returned was delivered
+   exactly once (a call on an empty slot: not at all). *)
+let obs_satisfies_invariants (steps : string list) (obs : string) : bool =
+  let contains s sub =
+    let n = String.length s and m = String.length sub in
+    let rec go i = i + m <= n && (String.sub s i m = sub || go (i + 1)) in go 0 in
+  let ends_ok = contains obs " stuck=- mu=free" in
+  let bad = contains obs "HANG" || contains obs "LEAK" || contains obs "CRASH" || contains obs "+" in
+  let body = match String.index_opt obs ' ' with Some i -> String.sub obs 0 i | None -> obs in
+  let items = List.concat_map (fun ph ->
+      match String.index_opt ph ':' with
+      | Some i -> String.split_on_char ',' (String.sub ph (i + 1) (String.length ph - i - 1))
+      | None -> []) (String.split_on_char '|' body) in
+  let count pre = List.length (List.filter (fun it -> String.length it >= String.length pre && String.sub it 0 (String.length pre) = pre) items) in
+  let ok = ref (ends_ok && not bad) in
+  List.iteri (fun j st ->
+      if String.length st > 0 && (st.[0] = 'S' || st.[0] = 'V' || st.[0] = 'K' || st.[0] = 'Q') then begin
+        let c = "c" ^ string_of_int j ^ "=" and d = "d" ^ string_of_int j ^ "=" in
+        let noslot = List.mem (c ^ "noslot") items in
+        if count c <> 1 then ok := false;
+        if noslot then (if count d <> 0 then ok := false) else if count d <> 1 then ok := false
+      end) (List.filter (fun x -> x <> "{" && x <> "}") steps);
+  !ok
+
 let jop_of (s : string) : jop =
   match String.split_on_char ':' s with
   | [] -> failwith "empty"
@@ -151,7 +193,7 @@ let run_join (np : int) (ops : jop list) : string =
        let items = ref [] in
        let ne = List.length c'.jevents - List.length before.jevents in
        List.iter (function
-           | EDeliver (t, d) -> items := (int_of_nat t, 1, Printf.sprintf "d%d=%s" (int_of_nat t) (dest_s d)) :: !items
+           | JEDeliver (t, _, d) | JEDirect (t, d) -> items := (int_of_nat t, 1, Printf.sprintf "d%d=%s" (int_of_nat t) (dest_s d)) :: !items
            | _ -> ()) (take ne c'.jevents);
        List.iteri (fun j th ->
            if j <= !i && jfinished c' (nat_of_int j) && not (jfinished before (nat_of_int j)) then
@@ -187,7 +229,7 @@ let jitems before after hi =
   let items = ref [] in
   let ne = List.length after.jevents - List.length before.jevents in
   List.iter (function
-      | EDeliver (t, d) -> items := (int_of_nat t, 1, Printf.sprintf "d%d=%s" (int_of_nat t) (dest_s d)) :: !items
+      | JEDeliver (t, _, d) | JEDirect (t, d) -> items := (int_of_nat t, 1, Printf.sprintf "d%d=%s" (int_of_nat t) (dest_s d)) :: !items
       | _ -> ()) (take ne after.jevents);
   List.iteri (fun j th ->
       if j <= hi && jfinished after (nat_of_int j) && not (jfinished before (nat_of_int j)) then
@@ -266,7 +308,10 @@ let () = iter_lines (fun line ->
                         is accepted and counted on stderr *)
                      let allowed = if List.mem impl quick then quick
                        else (try run_par ~full:true (int_of_string np) toks
-                             with Failure "exploration budget" -> (prerr_endline "inconclusive: exploration budget"; [impl])) in
+                             with Failure "exploration budget" ->
+                               note_inconclusive line;
+                               if obs_satisfies_invariants toks impl then [impl]
+                               else ["inconclusive (exploration budget) and the observation breaks the invariants"]) in
                      if List.mem impl allowed then impl
                      else (match allowed with a :: _ -> a ^ " [" ^ string_of_int (List.length allowed) ^ " outcomes allowed]" | [] -> "none")
                    with Failure m -> "bad-case " ^ m)
@@ -282,7 +327,10 @@ let () = iter_lines (fun line ->
                         is accepted and counted on stderr *)
                      let allowed = if List.mem impl quick then quick
                        else (try run_par ~full:true (int_of_string np) toks
-                             with Failure "exploration budget" -> (prerr_endline "inconclusive: exploration budget"; [impl])) in
+                             with Failure "exploration budget" ->
+                               note_inconclusive line;
+                               if obs_satisfies_invariants toks impl then [impl]
+                               else ["inconclusive (exploration budget) and the observation breaks the invariants"]) in
                      if List.mem impl allowed then impl
                      else (match allowed with a :: _ -> a ^ " [" ^ string_of_int (List.length allowed) ^ " outcomes allowed]" | [] -> "none")
                    with Failure m -> "bad-case " ^ m)
